@@ -3,6 +3,7 @@
 package main
 
 import (
+	"runtime/pprof"
 	"encoding/binary"
 	"encoding/json"
 	"flag"
@@ -195,7 +196,7 @@ func externalCheck(prop string, t []int32, class, sig string) bool {
 	b, _ := json.Marshal(&ReplayFile{Property: prop, Class: class, Signature: sig, Trace: t})
 	f.Write(b)
 	f.Close()
-	cmd := exec.Command(os.Args[0], "-prop", prop, "-replay", f.Name())
+	cmd := childCommand(os.Args[0], "-prop", prop, "-replay", f.Name())
 	cmd.Env = os.Environ()
 	done := make(chan error, 1)
 	if err := cmd.Start(); err != nil {
@@ -236,6 +237,8 @@ func sanitize(s string) string {
 	return s
 }
 
+var stopProfile = func() {}
+
 func main() {
 	propID := flag.String("prop", "", "property id")
 	tier := flag.String("tier", "quick", "quick|thorough")
@@ -256,6 +259,13 @@ func main() {
 	noMin := flag.Bool("no-minimise", false, "do not minimise violations (restarted shards)")
 	stall := flag.Float64("stall-s", 10, "a single case running longer than this is reported as a hang and ends the worker (exit 3)")
 	flag.Parse()
+	if pf := os.Getenv("VERIF_CPUPROFILE"); pf != "" {
+		// (development aid: where does a shard spend its time?)
+		if f, err := os.Create(fmt.Sprintf("%s.%d", pf, *shard)); err == nil {
+			pprof.StartCPUProfile(f)
+			stopProfile = pprof.StopCPUProfile
+		}
+	}
 	skipSet := map[int]bool{}
 	for _, f := range strings.Split(*skip, ",") {
 		if f != "" {
@@ -511,6 +521,7 @@ func main() {
 		res.Extra = ex.Extra()
 	}
 	flush(true)
+	stopProfile()
 	if *out == "" {
 		res.Complete = complete
 		b, _ := json.MarshalIndent(res, "", " ")
